@@ -6,7 +6,7 @@ use std::panic::{catch_unwind, AssertUnwindSafe};
 use std::any::Any;
 use std::rc::Rc;
 
-use tulisp::{list, tulisp_fn, Error, ErrorKind, TulispContext, TulispObject, TulispValue};
+use tulisp::{destruct_bind, list, tulisp_fn, Error, ErrorKind, TulispContext, TulispObject, TulispValue};
 
 fn hex_decode(h: &str) -> String {
     if h == "-" {
@@ -116,6 +116,17 @@ fn new_ctx() -> Ctx {
     fn host_id(x: TulispObject) -> TulispObject {
         x
     }
+    // a host macro: receives the unevaluated argument forms, returns (list FORMn ... FORM1)
+    ctx.add_macro("host-rev", |ctx, args| {
+        let mut forms: Vec<TulispObject> = args.base_iter().collect();
+        forms.reverse();
+        let out = TulispObject::nil();
+        out.push(ctx.intern("list"))?;
+        for f in forms {
+            out.push(f)?;
+        }
+        Ok(out)
+    });
     Ctx { ctx, probe }
 }
 
@@ -268,6 +279,70 @@ fn run_api(ops: &[String]) -> Vec<String> {
                 let (a, b, c) = (g(&regs, f[1]), g(&regs, f[2]), g(&regs, f[3]));
                 match list!(,a ,@b ,c) { Ok(o) => { regs.insert(f[4].parse().unwrap(), o); "u".to_string() } Err(_) => "e".to_string() }
             }
+            // ---- typed iterators: one item per element, converted with TryFrom
+            "iteri" => format!("L{}", g(&regs, f[1]).iter::<i64>().map(|x| match x { Ok(v) => format!("i{}", v), Err(_) => "e".to_string() }).collect::<Vec<_>>().join(",")),
+            "iterf" => format!("L{}", g(&regs, f[1]).iter::<f64>().map(|x| match x { Ok(v) => format!("f{:x}", v.to_bits()), Err(_) => "e".to_string() }).collect::<Vec<_>>().join(",")),
+            "iters" => format!("L{}", g(&regs, f[1]).iter::<String>().map(|x| match x { Ok(v) => format!("s{}", hex_encode(&v)), Err(_) => "e".to_string() }).collect::<Vec<_>>().join(",")),
+            "iterb" => format!("L{}", g(&regs, f[1]).iter::<bool>().map(|x| match x { Ok(v) => format!("b{}", v as u8), Err(_) => "e".to_string() }).collect::<Vec<_>>().join(",")),
+            "itero" => format!("L{}", g(&regs, f[1]).iter::<TulispObject>().map(|x| match x { Ok(v) => format!("v{}", hex_encode(&v.to_string())), Err(_) => "e".to_string() }).collect::<Vec<_>>().join(",")),
+            // ---- conversions through references, options and &str
+            "tointr" => match i64::try_from(&g(&regs, f[1])) { Ok(v) => format!("i{}", v), Err(_) => "e".to_string() },
+            "tofltr" => match f64::try_from(&g(&regs, f[1])) { Ok(v) => format!("f{:x}", v.to_bits()), Err(_) => "e".to_string() },
+            "optint" => match Option::<i64>::try_from(g(&regs, f[1])) { Ok(Some(v)) => format!("i{}", v), Ok(None) => "n".to_string(), Err(_) => "e".to_string() },
+            "optflt" => match Option::<f64>::try_from(g(&regs, f[1])) { Ok(Some(v)) => format!("f{:x}", v.to_bits()), Ok(None) => "n".to_string(), Err(_) => "e".to_string() },
+            "optstr" => match Option::<String>::try_from(g(&regs, f[1])) { Ok(Some(v)) => format!("s{}", hex_encode(&v)), Ok(None) => "n".to_string(), Err(_) => "e".to_string() },
+            "optany" => match Option::<Rc<dyn Any>>::try_from(g(&regs, f[1])) { Ok(Some(_)) => "a".to_string(), Ok(None) => "n".to_string(), Err(_) => "e".to_string() },
+            "toany" => match <Rc<dyn Any>>::try_from(g(&regs, f[1])) { Ok(v) => format!("a{}", v.downcast_ref::<u8>().copied().unwrap_or(0)), Err(_) => "e".to_string() },
+            "box" => { let b: Rc<dyn Any> = Rc::new(f[1].parse::<u8>().unwrap()); regs.insert(f[2].parse().unwrap(), TulispObject::from(b)); "u".to_string() }
+            "strref" => { let s = hex_decode(f[1]); regs.insert(f[2].parse().unwrap(), TulispObject::from(s.as_str())); "u".to_string() }
+            // ---- constructors of lists
+            "collect" => { let n = f.len() - 1; let o: TulispObject = f[1..n].iter().map(|r| g(&regs, r)).collect(); regs.insert(f[n].parse().unwrap(), o); "u".to_string() }
+            "alistfrom" => {
+                let n = f.len() - 1;
+                let o = match (n - 1) / 2 {
+                    0 => tulisp::lists::alist_from([]),
+                    1 => tulisp::lists::alist_from([(g(&regs, f[1]), g(&regs, f[2]))]),
+                    2 => tulisp::lists::alist_from([(g(&regs, f[1]), g(&regs, f[2])), (g(&regs, f[3]), g(&regs, f[4]))]),
+                    _ => tulisp::lists::alist_from([(g(&regs, f[1]), g(&regs, f[2])), (g(&regs, f[3]), g(&regs, f[4])), (g(&regs, f[5]), g(&regs, f[6]))]),
+                };
+                regs.insert(f[n].parse().unwrap(), o); "u".to_string()
+            }
+            "plistfrom" => {
+                let n = f.len() - 1;
+                let o = match (n - 1) / 2 {
+                    0 => tulisp::lists::plist_from([]),
+                    1 => tulisp::lists::plist_from([(g(&regs, f[1]), g(&regs, f[2]))]),
+                    2 => tulisp::lists::plist_from([(g(&regs, f[1]), g(&regs, f[2])), (g(&regs, f[3]), g(&regs, f[4]))]),
+                    _ => tulisp::lists::plist_from([(g(&regs, f[1]), g(&regs, f[2])), (g(&regs, f[3]), g(&regs, f[4])), (g(&regs, f[5]), g(&regs, f[6]))]),
+                };
+                regs.insert(f[n].parse().unwrap(), o); "u".to_string()
+            }
+            // ---- destruct_bind!: the seven pattern shapes
+            "db" => {
+                let v = g(&regs, f[2]);
+                let pat = f[1];
+                let run = |v: TulispObject| -> Result<Vec<TulispObject>, Error> {
+                    match pat {
+                        "1" => { destruct_bind!((a b) = v); Ok(vec![a, b]) }
+                        "2" => { destruct_bind!((a &optional b) = v); Ok(vec![a, b]) }
+                        "3" => { destruct_bind!((a &optional b c) = v); Ok(vec![a, b, c]) }
+                        "4" => { destruct_bind!((a b &rest r) = v); Ok(vec![a, b, r]) }
+                        "5" => { destruct_bind!((a &optional b &rest r) = v); Ok(vec![a, b, r]) }
+                        "6" => { destruct_bind!((&optional a b) = v); Ok(vec![a, b]) }
+                        "7" => { destruct_bind!((&rest r) = v); Ok(vec![r]) }
+                        _ => { destruct_bind!((a) = v); Ok(vec![a]) }
+                    }
+                };
+                match run(v) { Ok(vs) => format!("D{}", vs.iter().map(|x| hex_encode(&x.to_string())).collect::<Vec<_>>().join(",")), Err(_) => "e".to_string() }
+            }
+            // ---- context entry points that take objects
+            "evals" => match ctx.eval_string(&hex_decode(f[1])) { Ok(o) => { regs.insert(f[2].parse().unwrap(), o); "u".to_string() } Err(_) => "e".to_string() },
+            "ctxeval" => match ctx.eval(&g(&regs, f[1])) { Ok(o) => { regs.insert(f[2].parse().unwrap(), o); "u".to_string() } Err(_) => "e".to_string() },
+            "evalthen" => match ctx.eval_and_then(&g(&regs, f[1]), |v| Ok(v.to_string())) { Ok(s) => format!("v{}", hex_encode(&s)), Err(_) => "e".to_string() },
+            "ctxfuncall" => match ctx.funcall(&g(&regs, f[1]), &g(&regs, f[2])) { Ok(o) => { regs.insert(f[3].parse().unwrap(), o); "u".to_string() } Err(_) => "e".to_string() },
+            "ctxmap" => match ctx.map(&g(&regs, f[1]), &g(&regs, f[2])) { Ok(o) => { regs.insert(f[3].parse().unwrap(), o); "u".to_string() } Err(_) => "e".to_string() },
+            "ctxfilter" => match ctx.filter(&g(&regs, f[1]), &g(&regs, f[2])) { Ok(o) => { regs.insert(f[3].parse().unwrap(), o); "u".to_string() } Err(_) => "e".to_string() },
+            "ctxreduce" => match ctx.reduce(&g(&regs, f[1]), &g(&regs, f[2]), &g(&regs, f[3])) { Ok(o) => { regs.insert(f[4].parse().unwrap(), o); "u".to_string() } Err(_) => "e".to_string() },
             _ => "?".to_string(),
         };
         outs.push(r);
